@@ -277,6 +277,17 @@ inductive DirList (α : Type) where
   | cons (name : Str) (d : Dir α) (rest : DirList α)
 end
 
+/-- the pruning test of `get_file_list`: `dirs[:] = [d for d in dirs if d not in exclude_dirs]` — by the
+bare directory *name* `n`, whatever the directory `here` it is found in -/
+def fileListPrunes (excl : List Str) (_here : Path) (n : Str) : Bool := excl.contains n
+
+/-- the pruning test of `get_dir_dictionary` (a separate copy of the same line in the source) -/
+def dirDictPrunes (excl : List Str) (_here : Path) (n : Str) : Bool := excl.contains n
+
+/-- the property: a file takes part iff no directory component of its path below the root is an
+excluded name (same as `visible`) -/
+def participates (excl : List Str) (p : Path) : Prop := ∀ c ∈ p.dropLast, c ∉ excl
+
 mutual
 /-- `for root, dirs, files in os.walk(top, topdown=True): dirs[:] = [d for d in dirs if d not in excl]`
 collecting the files whose *name* passes `keep`, with their path below the top (`here` = path of this
@@ -287,7 +298,8 @@ def Dir.files (excl : List Str) (keep : Str → Bool) (here : Path) : Dir α →
 def DirList.files (excl : List Str) (keep : Str → Bool) (here : Path) : DirList α → Tree α
   | .nil => []
   | .cons n d rest =>
-    (if excl.contains n then [] else Dir.files excl keep (here ++ [n]) d) ++ DirList.files excl keep here rest
+    (if fileListPrunes excl here n then [] else Dir.files excl keep (here ++ [n]) d) ++
+      DirList.files excl keep here rest
 end
 
 /-- every file, nothing pruned, in walk order: the listing the flat model (`discover`, `load`) works on -/
@@ -307,12 +319,17 @@ def DirList.dict (excl : List Str) (keep : Str → Bool) (skipEmpty : Bool) (her
     DirList α → List (Path × List Path)
   | .nil => []
   | .cons n d rest =>
-    (if excl.contains n then [] else Dir.dict excl keep skipEmpty (here ++ [n]) d) ++
+    (if dirDictPrunes excl here n then [] else Dir.dict excl keep skipEmpty (here ++ [n]) d) ++
       DirList.dict excl keep skipEmpty here rest
 end
 
 def getDirDictionary (D : Dir α) (f : NameFilter) (excl : List Str) (skipEmpty : Bool := true) :
     List (Path × List Path) := D.dict excl (checkFilename f) skipEmpty []
+
+/-- executable check that a listing is a file-system listing (`Props/C16.IsListing`): every entry has a
+name and is the only entry whose path extends its path (paths distinct, no file is a directory) -/
+def isListingB (t : Tree α) : Bool :=
+  t.all fun f => !f.1.isEmpty && (t.filter fun f' => f.1.isPrefixOf f'.1).length == 1
 
 /-- `BidsFile(path)` for each discovered file; the first malformed name raises -/
 def parseAll : Tree α → Except PErr (List (PFile α))
